@@ -285,6 +285,119 @@ fn run_refusal(cx: &mut CaseCx, _case: &Value) {
   cx.sample(json!({"invalid_elements": inv.iter().map(|b| b.to_string()).collect::<Vec<_>>()}));
 }
 
+
+/// History independence of the public sharks API on one thread: every sequence of up to two "disturbing"
+/// calls (refused, ragged, degenerate, foreign) followed by the probes - a recovery, a direct
+/// interpolation and a fresh dealing must come out exactly as on a fresh thread.
+fn run_call_histories(cx: &mut CaseCx, case: &Value) {
+  use core::convert::TryFrom;
+  use star_sharks::{interpolate, Fp};
+  let k = case["k"].as_u64().unwrap() as usize;
+  let t = case["t"].as_u64().unwrap() as u32;
+  let se = sec_elems();
+  let elems: Vec<BigUint> = (0..k).map(|j| se[(j * 3 + 1) % se.len()].clone()).collect();
+  let secret = secret_bytes(&elems, 0);
+  let deal = |key: u64| -> Vec<Share> {
+    let mut rng = ScriptRng::new(&[], key);
+    Sharks(t).dealer_rng(&secret, &mut rng).map(|ev| ev.take(t as usize + 2).collect()).unwrap_or_default()
+  };
+  let good = deal(11);
+  if good.len() != t as usize + 2 {
+    return;
+  }
+  // another sharing (other secret width, other threshold) to build the disturbing calls from
+  let other_secret = secret_bytes(&[se[2].clone()], 0);
+  let other: Vec<Share> = {
+    let mut rng = ScriptRng::new(&[], 12);
+    Sharks(2).dealer_rng(&other_secret, &mut rng).map(|ev| ev.take(3).collect()).unwrap_or_default()
+  };
+  let wide_secret = secret_bytes(&[se[0].clone(), se[1].clone(), se[3].clone()], 0);
+  let wide: Vec<Share> = {
+    let mut rng = ScriptRng::new(&[], 13);
+    Sharks(2).dealer_rng(&wide_secret, &mut rng).map(|ev| ev.take(2).collect()).unwrap_or_default()
+  };
+  if other.len() != 3 || wide.len() != 2 {
+    return;
+  }
+  type Call = Box<dyn Fn()>;
+  let mk = |shares: Vec<Share>| -> Call { Box::new(move || { let _ = guard(|| interpolate(&shares).map_err(|e| e.to_string())); }) };
+  let mkr = |th: u32, shares: Vec<Share>| -> Call { Box::new(move || { let sh = Sharks(th); let _ = guard(|| sh.recover(&shares).map_err(|e| e.to_string())); }) };
+  let mut ragged_longer = other[..2].to_vec();
+  ragged_longer[1].y.push(Fp::from(9u64));
+  let mut ragged_shorter = wide.clone();
+  ragged_shorter[1].y.pop();
+  let mut ragged_first_empty = other[..2].to_vec();
+  ragged_first_empty[0].y.clear();
+  let dup_x = vec![other[0].clone(), other[0].clone()];
+  let mut same_x_other_y = vec![other[0].clone(), other[0].clone()];
+  same_x_other_y[1].y[0] += Fp::from(1u64);
+  let inv = invalid_elems();
+  let bad_secret = secret_bytes(&[inv[0].clone()], 0);
+  let bad_bytes: Vec<u8> = vec![0xff; 47];
+  let calls: Vec<(&str, Call)> = vec![
+    ("interpolate(ragged: second share one element longer)", mk(ragged_longer.clone())),
+    ("interpolate(ragged: second share one element shorter)", mk(ragged_shorter.clone())),
+    ("interpolate(ragged: first share without values)", mk(ragged_first_empty)),
+    ("interpolate(no shares)", mk(vec![])),
+    ("interpolate(one share of a 2-threshold sharing)", mk(other[..1].to_vec())),
+    ("interpolate(the same share twice)", mk(dup_x.clone())),
+    ("interpolate(two shares at one point with different values)", mk(same_x_other_y.clone())),
+    ("interpolate(a 3-element sharing)", mk(wide.clone())),
+    ("recover(too few shares)", mkr(3, other[..2].to_vec())),
+    ("recover(shares of unequal length)", mkr(2, ragged_longer)),
+    ("recover(unequal length, repeated point)", mkr(2, vec![wide[0].clone(), wide[1].clone(), ragged_shorter[1].clone()])),
+    ("recover(duplicates only)", mkr(2, dup_x)),
+    ("recover(threshold 0)", mkr(0, other.clone())),
+    ("recover(another sharing)", mkr(2, other.clone())),
+    ("dealer(secret with an out-of-range element)", Box::new(move || { let mut rng = ScriptRng::new(&[], 5); let _ = guard(|| Sharks(2).dealer_rng(&bad_secret, &mut rng).map(|ev| ev.take(2).count()).map_err(|e| e.to_string())); })),
+    ("Share::try_from(47 bytes 0xff)", Box::new(move || { let _ = guard(|| Share::try_from(bad_bytes.as_slice()).map(|_| ()).map_err(|e| e.to_string())); })),
+  ];
+  let n = calls.len();
+  let probe = |cx: &mut CaseCx, hist: &[usize]| -> bool {
+    let names: Vec<&str> = hist.iter().map(|&i| calls[i].0).collect();
+    let d = || json!({"k": k, "t": t, "calls_before": names});
+    let sh = Sharks(t);
+    cx.eval();
+    let r1 = guard(|| sh.recover(&good).map_err(|e| e.to_string()));
+    if r1 != Ok(Ok(secret.clone())) {
+      cx.viol("C06/call-history/recover-differs", format!("after the calls {:?} on the same thread, recovering a healthy sharing gives {:?} instead of the secret", names, r1.map(|r| r.map(|b| hexs(&b)))), d());
+      return false;
+    }
+    let picked: Vec<Share> = good.iter().rev().take(t as usize).cloned().collect();
+    let r2 = guard(|| interpolate(&picked).map_err(|e| e.to_string()));
+    if r2 != Ok(Ok(secret.clone())) {
+      cx.viol("C06/call-history/interpolate-differs", format!("after the calls {:?} on the same thread, interpolate of t healthy shares gives {:?} instead of the secret", names, r2.map(|r| r.map(|b| hexs(&b)))), d());
+      return false;
+    }
+    let again = deal(11);
+    if again.iter().map(share_pts).collect::<Vec<_>>() != good.iter().map(share_pts).collect::<Vec<_>>() {
+      cx.viol("C06/call-history/dealer-differs", format!("after the calls {:?} on the same thread, dealing the same secret from the same random source gives other shares", names), d());
+      return false;
+    }
+    cx.count("histories_probed", 1);
+    true
+  };
+  for a in 0..n {
+    // histories run back to back on the worker thread (each is in effect the tail of a longer one)
+    for b in std::iter::once(None).chain((0..n).map(Some)) {
+      let hist: Vec<usize> = std::iter::once(a).chain(b).collect();
+      cx.nontrivial(fnv_str(&format!("{}|{}|{:?}", k, t, hist)));
+      cx.count("states", 1);
+      cx.count("transitions", hist.len() as u64);
+      for &i in &hist {
+        (calls[i].1)();
+      }
+      if !probe(cx, &hist) {
+        return;
+      }
+    }
+  }
+  cx.outcome("history independent");
+  if k == 1 && t == 2 {
+    cx.sample(json!({"disturbing_calls": calls.iter().map(|c| c.0).collect::<Vec<_>>(), "histories": n * (n + 1)}));
+  }
+}
+
 /// coefficients are separate draws from the supplied source
 fn run_draws(cx: &mut CaseCx, case: &Value) {
   let t = case["t"].as_u64().unwrap() as u32;
@@ -614,6 +727,21 @@ pub fn spec() -> PropSpec {
         gen: |_| vec![json!({})],
         run: run_refusal,
         min_counts: &[("refused", 100), ("accepted", 10)],
+      },
+      Check {
+        name: "call-histories",
+        rule: "history independence on one thread: EVERY sequence of one or two calls from 16 disturbing uses of the public API (interpolate on ragged / empty / single / duplicate / same-point slices and on a wider sharing; recover with too few, unequal, duplicate, threshold-0, foreign shares; a refused dealing; a refused decoding) followed by three probes - recover and interpolate of a healthy sharing return the secret, dealing from the same source gives the same shares (secrets of 1..3 elements, t in {2,3})",
+        gen: |_| {
+          let mut v = vec![];
+          for k in 1..=3u64 {
+            for t in [2u64, 3] {
+              v.push(json!({"k": k, "t": t}));
+            }
+          }
+          v
+        },
+        run: run_call_histories,
+        min_counts: &[("histories_probed", 1000)],
       },
       Check {
         name: "separate-draws",
